@@ -11,7 +11,21 @@ import corpus as corpus_mod
 
 def record_and_validate(c):
     cp = os.path.join(c.work, "corpus_sym.json")
-    json.dump(corpus_mod.collect(), open(cp, "w"))
+    texts = corpus_mod.collect()
+    # the typed programs of TypeRules.tla (declarations with every designator form, signatures, conversions, arithmetic):
+    # short valid-syntax programs that reach the type and designator paths of the analysis
+    t = run_tlc("typerules", "TypeRules", "TypeRules.cfg", workers=1, timeout=900, xss="512m", cache_key="tr", keep_tags={"DECL", "SIG", "LISTING", "ROW", "ARITH"})
+    if not t.ok:
+        c.tool_error(f"TypeRules failed: {t.error_text} {t.raw_tail[-600:]}")
+    rs, ars = (10, 40) if c.quick else (2, 8)
+    typed = [x["text"] for x in t.tagged.get("DECL", [])] + [x["text"] for x in t.tagged.get("SIG", [])] \
+        + sorted(x["text"] for x in t.tagged.get("ROW", []))[::rs] + sorted(x["text"] for x in t.tagged.get("ARITH", []))[::ars]
+    seen = set(texts)
+    for x in typed:
+        if x not in seen:
+            seen.add(x); texts.append(x)
+    c.cov["typed_programs_analysed"] = len(typed)
+    json.dump(texts, open(cp, "w"))
     gp = os.path.join(c.work, "gcases_sym.ndjson")
     cfg = "GrammarCases_quick.cfg" if c.quick else "GrammarCases_thorough.cfg"
     r = run_tlc("grammar", "GrammarCases", cfg, workers=1, timeout=3000, xss="1g", cache_key="gc", keep_tags={"CASE", "SEQ", "COUNT"}, xmx="12g")
